@@ -442,6 +442,14 @@ def long_cases(tier):
         for score, msl, M, g, ts in (("L2cost", 3, 40, 1.5, 0.5), ("L2", 5, 60, 2.0, 1.0)):
             yield {"fam": "data", "x": util.very_long_series(n, 37), "score": score, "msl": msl, "M": M, "growth": g, "thr_scale": ts,
                    "timeout": 900}
+    # realistic lengths with candidate intervals as long as the series (64 and more samples): every 0- and 1-change
+    # placement and a fixed 16th (thorough: quarter) of the 2-change placements; each candidate's score and inner interval
+    # are compared with the maximum over ALL admissible inner intervals
+    for n, msl, M, g, score in ((72, 4, 72, 1.5, "L2cost"),) if tier == "quick" else ((72, 4, 72, 1.5, "L2cost"), (80, 3, 80, 2.0, "L2"), (96, 6, 96, 1.5, "L2cost")):
+        for cps, xs in util.structured_series(n, 2, (0.0, 3.0)):
+            if len(cps) == 2 and (cps[0] * 3 + cps[1]) % (16 if tier == "quick" else 4):
+                continue
+            yield {"fam": "data", "x": list(xs), "score": score, "msl": msl, "M": M, "growth": g, "thr_scale": 0.3, "timeout": 300}
     for n in (12, 16) if tier == "quick" else (12, 16, 20, 24):
         for msl, M, g in ((1, 8, 1.5), (4, n, 1.5), (5, 12, 2.0), (2, 10, 1.25)):
             if n < 2 * msl or M < 2 * msl:
@@ -455,7 +463,7 @@ def long_cases(tier):
 FAMILIES = {"long": lambda t, s: long_cases(t), "onehot": lambda t, s: onehot_cases(t), "rowmax": lambda t, s: rowmax_cases(t),
             "greedy": lambda t, s: greedy_cases(t), "greedy-dev": lambda t, s: greedy_dev_cases(t),
             "data": lambda t, s: data_cases(t, s)}
-NSH = {"long": 32, "onehot": 24, "rowmax": 32, "greedy": 48, "greedy-dev": 48, "data": 64}
+NSH = {"long": 64, "onehot": 24, "rowmax": 32, "greedy": 48, "greedy-dev": 48, "data": 64}
 
 
 def shards(tier, seed):
@@ -469,7 +477,7 @@ def bounds(tier, seed):
         "greedy": "configs n<=8 / 10 with <=6/7 usable candidates; levels (0,1,2,3) x threshold; inner intervals {first,last,middle,shortest,longest}",
         "greedy-dev": "n in (8,9,10,12) / (8..14), M in {n, n//2}, msl<=3; all single deviations and all pairs on overlapping candidates",
         "shapes": "plain; 'tight' = levels 2, 3 exceed the threshold by only 2^-20, 2^-19 of its size; 'neg' = every score negative (level - 5 units); on rowmax (<=4 inner intervals) and greedy-dev",
-        "long": "piecewise-constant textured series n in (12,16) quick / up to 24, <= 2 changes, msl in (1,2,4,5)",
+        "long": "piecewise-constant textured series n in (12,16) quick / up to 24, <= 2 changes, msl in (1,2,4,5); realistic length n = 72 (thorough also 80, 96) with max_interval_length = n",
         "data": "GaussianCovCost on 2 generic columns n in (7,8) / (7..11), msl 3; all series over (0,4) n<=9/10; (0,1,3) and seed-affine image n<=7/8; 2-column (0,3) n<=5; L2Cost msl 1, LocalAnomalyScore(L2Cost) msl 2, LocalAnomalyScore(GaussianVarCost) msl 2; thresholds 0, 0.05*default, tuned",
     }
 
